@@ -189,8 +189,8 @@ F("A27", "C04", RS, "        for p_1 in {p_0, p_0 | msb_1, p_0 | msb_11}:", "   
 F("A27b", "C04", RS, "      msb_1 = 2 ** (psize - 1)\n", "      msb_1 = 2 ** (psize - 2)\n", "R-C04-MSB", "msb at the wrong position")
 F("A27c", "C04", RS, "          factors = special_case_factoring.FactorWithGuess(n, p_1)\n          if factors:\n            break\n",
   "          factors = special_case_factoring.FactorWithGuess(n, p_1)\n          break\n", "R-C04-EXHAUST", "only the first msb variant is tried")
-F("A27d", "C04", RS, "          if d.bit_length() > max_dsize:\n            break\n          factors = rsa_util.CheckFraction(n, d)", "          if d.bit_length() > max_dsize:\n            break\n          factors = rsa_util.CheckFraction(n, d)\n          if not factors:\n            break",
-  "R-C04-EXHAUST", "permuted patterns: stop at first failing psize")
+F("A27d", "C05", RS, "          if d.bit_length() > max_dsize:\n            break\n          factors = rsa_util.CheckFraction(n, d)", "          if d.bit_length() > max_dsize:\n            break\n          factors = rsa_util.CheckFraction(n, d)\n          if not factors:\n            break",
+  "R-C05-EXHAUST", "permuted patterns: stop at first failing psize")
 T("A29", "C04", RU, "  differences = [\n      2 ** (prime_size - 100),\n      2 ** (prime_size - 128),\n      2 ** (prime_size - 160),\n      2 ** (prime_size - 256),\n      2 ** (prime_size - 2),\n      2 ** (prime_size - 3),\n  ]",
   "  differences = [2 ** (prime_size - k) for k in (100, 128, 160, 256, 2, 3)]", "differences via comprehension")
 T("A29b", "C04", RU, "    p0 = gmpy.isqrt(n + (diff // 2) ** 2) + diff // 2", "    half = diff // 2\n    p0 = gmpy.isqrt(n + half * half) + half", "guess with a temp")
@@ -258,7 +258,7 @@ F("B31", "C11", EC, "    return (x, -y % self.mod)", "    return (x, y % self.mo
 F("B32", "C11", EC, "    z2 = 2 * y * z % mod\n    return x2, y2, z2", "    z2 = y * z % mod\n    return x2, y2, z2", "R-C11-FORMULA", "DoubleJacobian z2")
 F("B33", "C11", EC, "    wsqr = w * w % mod\n    wcube = wsqr * w % mod\n    x = x * wsqr % mod\n    y = y * wcube % mod", "    wsqr = w * w % mod\n    wcube = wsqr * w % mod\n    x = x * wsqr % mod\n    y = y * wsqr % mod", "R-C11-FORMULA", "JacobianToAffine y uses w^2")
 F("B34", "C11", EC, "        tmp[i] = 2 * p[1]\n", "        tmp[i] = p[1]\n", "R-C11-FORMULA", "BatchDouble inverse of y instead of 2y")
-F("B35", "C11", EC, "    if x1 == x2:\n      if y1 == y2:\n        return self.Double(p)\n      else:\n        return INFINITY", "    if x1 == x2:\n      if y1 == y2:\n        return INFINITY\n      else:\n        return self.Double(p)", "R-C11-DISPATCH", "Add: equal/opposite swapped")
+F("B35", "C11", EC, "      if (y1 - y2) % self.mod == 0:\n        return self.Double(p)\n      else:\n        return INFINITY", "      if (y1 - y2) % self.mod == 0:\n        return INFINITY\n      else:\n        return self.Double(p)", "R-C11-DISPATCH", "Add: equal/opposite swapped")
 F("B36", "C11", EC, "    if z == 0 or y == 0:\n      return INFINITY_JACOBIAN", "    if z == 0:\n      return INFINITY_JACOBIAN", "R-C11-DISPATCH", "DoubleJacobian: y = 0 not handled")
 F("B37", "C11", EC, "      if p != INFINITY and q != INFINITY:\n        tmp[i] = (p[0] - q[0]) % self.mod", "      if p != INFINITY:\n        tmp[i] = (p[0] - q[0]) % self.mod", "R-C11-DISPATCH", "BatchAddList: inverse requested for infinite q")
 F("B38", "C11", EC, "      if v:\n        res[i] = res[i] * inverse % mod\n        inverse = inverse * v % mod", "      if v is not None:\n        res[i] = res[i] * inverse % mod\n        inverse = inverse * v % mod", "R-C11-DISPATCH", "BatchInverse: passes skip different entries")
@@ -554,3 +554,11 @@ ROWS.append({"id": "K41", "prop": "C12", "expect": "silent", "what": "the same c
 ROWS.append({"id": "K42", "prop": "C12", "expect": "fire", "rule": "R-C12-PURE", "what": "call counter in a module-level list changes later results", "edits": [
     {"file": NS, "old": "def OverlappingTemplateMatchingImpl(", "new": "_SEEN = []\n\n\ndef OverlappingTemplateMatchingImpl("},
     {"file": NS, "old": "  pi = OverlappingTemplateMatchingDistribution(n, m, k)\n", "new": "  _SEEN.append(n)\n  pi = OverlappingTemplateMatchingDistribution(_SEEN[0], m, k)\n"}]})
+
+# ---------------------------------------------------------------------------------- C18 modular inversions (round 2, after fix 388cc4e)
+F("K50", "C18", EC, "    if (x1 - x2) % self.mod == 0:\n      if (y1 - y2) % self.mod == 0:", "    if x1 == x2:\n      if y1 == y2:", "R-C18-INVERT", "Add: coordinates compared as integers again (defect before 388cc4e)")
+F("K51", "C18", EC, "    if y % self.mod == 0:\n      return INFINITY\n", "", "R-C18-INVERT", "Double: no y = 0 (mod p) case (defect before 388cc4e)")
+F("K52", "C18", EC, "    if y % self.mod == 0:\n      return INFINITY\n", "    if y == 0:\n      return INFINITY\n", "R-C18-INVERT", "Double: y tested as an integer")
+T("K53", "C18", EC, "    if (x1 - x2) % self.mod == 0:\n      if (y1 - y2) % self.mod == 0:", "    if (x2 - x1) % self.mod == 0:\n      if (y1 - y2) % self.mod == 0:", "Add: difference taken the other way round")
+T("K54", "C11", EC, "    if (x1 - x2) % self.mod == 0:\n      if (y1 - y2) % self.mod == 0:", "    if x1 == x2:\n      if y1 == y2:", "Add with integer comparison is still the group law on reduced points (C11 silent)")
+F("K55", "C11", EC, "    if y % self.mod == 0:\n      return INFINITY\n", "    if x % self.mod == 0:\n      return INFINITY\n", "R-C11-DISPATCH", "Double: infinity returned for x = 0")
